@@ -2,7 +2,7 @@
 Property C09 — the lexer partitions the source into the documented tokens.
 Property theorems only; helper lemmas live in PqlModel/Lemmas.
 -/
-import PqlModel.Lemmas.LexBasic
+import PqlModel.Lemmas.LexReach
 namespace Pql.C09
 open Pql
 
@@ -41,6 +41,24 @@ theorem scanFrom_ordered (s : Bytes) (off : Nat) : Ordered off (off + s.length) 
 theorem C09_partition (src : Bytes) : Ordered 0 src.length (scan src) := by
   have := scanFrom_ordered src 0
   simpa [scan] using this
+
+/-- **C09 (rescan, all kinds).** The text of any token of `Scan`, scanned on its own, is one
+    token with the same kind and value that covers the whole text.  This also holds for error
+    tokens. -/
+theorem C09_rescan_any (src : Bytes) :
+    ∀ t ∈ scan src,
+      scan ((src.drop t.start).take (t.stop - t.start)) =
+        [⟨t.kind, 0, t.stop - t.start, t.value⟩] := by
+  intro t ht
+  have := scanFrom_rescan src 0 t ht
+  simpa using this
+
+/-- **C09 (rescan).** The text of a non-error token, scanned on its own, gives the same token. -/
+theorem C09_rescan (src : Bytes) :
+    ∀ t ∈ scan src, t.kind ≠ .error →
+      scan ((src.drop t.start).take (t.stop - t.start)) =
+        [⟨t.kind, 0, t.stop - t.start, t.value⟩] :=
+  fun t ht _ => C09_rescan_any src t ht
 
 -- sanity test (evaluated, not a theorem): `a == 1` has three tokens
 #guard (scan [97, 32, 61, 61, 32, 49]).length = 3
